@@ -409,6 +409,9 @@ class MachO(BinFormat):
             elif op == BIND_OPCODE_DO_BIND_ULEB_TIMES_SKIPPING_ULEB:
                 count, cnt = read_uleb128(raw[cur:])
                 skip, cnt2 = read_uleb128(raw[cur + cnt :])
+                if count > self.__file.size():
+                    # (every binding needs a pointer slot in the file)
+                    raise MachOError("bad repeat count in bind opcodes")
                 for i in range(count):
                     L.append(r.as_list())
                     r.seg_offset += skip + l
